@@ -796,7 +796,10 @@ def scripted_run(rnd, ps, tb, n, nsr, bs, maxpar=1, sched=None, burn_in=0, props
     if props is None:
         props = [[rnd.randint(1, len(lat[k])) for k in range(p)] for _ in range(n - 1)]
     if us is None:
-        us = [[rnd.choice([0, 1, 8, 16, 24, 32, 40, 48, 56, 63] + list(range(64))), 64] for _ in range(n - 1)]
+        # u = 0 is accepted by the code even for a zero posterior (0 < exp(-700)): an event of probability 2^-53
+        # that the statement does not distinguish; not scripted when a zero-likelihood point exists
+        lo = 1 if any(pt["lk"][0] == 0 for pts in lat for pt in pts) else 0
+        us = [[rnd.choice([lo, 1, 8, 16, 24, 32, 40, 48, 56, 63] + list(range(lo, 64))), 64] for _ in range(n - 1)]
     return dict(kind="run", mode="scripted", n=n, nsr=nsr, bs=bs, maxpar=maxpar, sched=sched, burn_in=burn_in, tb=tb,
                 ps=[list(x) for x in ps], lat=lat, start=start, props=props, us=us, p_ready=rnd.choice([0.2, 0.5, 0.9]),
                 p_run=rnd.choice([0.0, 0.5, 1.0]))
